@@ -157,6 +157,11 @@ type run struct {
 	bUfrag, bPwd, aUfrag, aPwd string
 	wg                         sync.WaitGroup
 	gathering                  bool
+	noTick                     atomic.Bool
+	hammerStop                 atomic.Bool
+	blockNew                   atomic.Bool
+	gate0                      chan struct{}
+	closeTimedOut              bool
 }
 
 func itoa(i int) string { return strconv.Itoa(i) }
@@ -409,6 +414,9 @@ func (r *run) ticker(a *ice.Agent) {
 		case <-r.stop:
 			return
 		case <-time.After(time.Millisecond):
+		}
+		if a == r.A && r.noTick.Load() {
+			continue
 		}
 		if ice.VerifTickReady(a) {
 			ice.VerifTick(a)
@@ -711,6 +719,119 @@ func (r *run) step(t []string) {
 			c := r.newCloser(class)
 			go r.doClose(c, g)
 		}
+	case "HM": // hammer the loop: nt goroutines tick, na goroutines publish candidates (addCandidate), for a moment;
+		// then every socket of the subject stops accepting writes (the closers follow in the script)
+		nt, na := arg(1), arg(2)
+		for i := 0; i < nt; i++ {
+			r.call("Tick", true, func() int {
+				for !r.hammerStop.Load() {
+					if ice.VerifTickReady(a) {
+						ice.VerifTick(a)
+					}
+					if _, err := a.GetGatheringState(); err != nil {
+						return classify(err)
+					}
+				}
+
+				return clsNil
+			})
+		}
+		for i := 0; i < na; i++ {
+			r.call("AddLocal", true, func() int {
+				for n := 0; n < 60 && !r.hammerStop.Load(); n++ {
+					c := r.w.newConn(0, r.netA.ip, 0, 0, false)
+					if r.blockNew.Load() {
+						c.blockW.Store(true)
+					}
+					r.mu.Lock()
+					r.socks = append(r.socks, c)
+					r.mu.Unlock()
+					cand, err := ice.NewCandidateHost(&ice.CandidateHostConfig{Network: "udp", Address: r.netA.ip.String(), Port: c.laddr.Port, Component: 1})
+					if err != nil {
+						return clsOther
+					}
+					if err := ice.VerifCloseAddLocal(a, cand, c); err != nil {
+						_ = c.Close()
+
+						return classify(err)
+					}
+				}
+
+				return clsNil
+			})
+		}
+		time.Sleep(time.Duration(200+r.rng.Intn(800)) * time.Microsecond)
+		r.blockNew.Store(true)
+		r.mu.Lock()
+		for _, c := range r.socks {
+			c.blockW.Store(true)
+		}
+		r.mu.Unlock()
+	case "TX": // stop the automatic ticks of the subject (the script issues ticks itself from now on)
+		r.noTick.Store(true)
+		time.Sleep(3 * time.Millisecond)
+	case "T0": // a task occupies the loop until G0 (any API task in progress when Close is called)
+		r.gate0 = make(chan struct{})
+		g := r.gate0
+		in := make(chan struct{})
+		r.call("Task", true, func() int {
+			return classify(ice.VerifCloseRun(a, func() {
+				r.ev.add("T0s")
+				close(in)
+				select {
+				case <-g:
+				case <-r.stop:
+				}
+				r.ev.add("T0e")
+			}))
+		})
+		select {
+		case <-in:
+		case <-time.After(time.Second):
+		}
+	case "QL": // a gatherer publishes a candidate (addCandidate) whose socket does not accept writes
+		c := r.w.newConn(0, r.netA.ip, 0, arg(1)%3, false)
+		c.blockW.Store(true)
+		cand, err := ice.NewCandidateHost(&ice.CandidateHostConfig{Network: "udp", Address: r.netA.ip.String(), Port: c.laddr.Port, Component: 1})
+		if err == nil {
+			r.call("AddLocal", true, func() int {
+				err := ice.VerifCloseAddLocal(a, cand, c)
+				if err != nil {
+					_ = c.Close()
+				} else {
+					r.mu.Lock()
+					r.socks = append(r.socks, c)
+					r.mu.Unlock()
+				}
+
+				return classify(err)
+			})
+			time.Sleep(3 * time.Millisecond)
+		}
+	case "QT": // one tick of connectivityChecks, issued from a goroutine of its own
+		r.call("Tick", true, func() int {
+			if ice.VerifTickReady(a) {
+				ice.VerifTick(a)
+			}
+
+			return clsNil
+		})
+		time.Sleep(2 * time.Millisecond)
+	case "G0": // once a closer has aborted the started candidates' I/O, the task of T0 ends
+		r.waitFor(time.Second, func() bool {
+			for _, e := range r.ev.snapshot() {
+				if strings.HasPrefix(e, "AB") {
+					return true
+				}
+			}
+
+			return false
+		})
+		time.Sleep(time.Millisecond)
+		if r.gate0 != nil {
+			close(r.gate0)
+			r.gate0 = nil
+		}
 	case "CW": // wait until a closer returned; if no armed callback fired, fall back to an API Close
 		if !r.waitFor(300*time.Millisecond, r.anyCloserStarted) {
 			c := r.newCloser("fb")
@@ -721,6 +842,9 @@ func (r *run) step(t []string) {
 }
 
 func (r *run) waitClosers() {
+	if r.closeTimedOut {
+		return
+	}
 	r.mu.Lock()
 	cs := append([]*closerRec(nil), r.closers...)
 	r.mu.Unlock()
@@ -729,6 +853,8 @@ func (r *run) waitClosers() {
 		select {
 		case <-c.done:
 		case <-deadline:
+			r.closeTimedOut = true
+
 			return
 		}
 	}
@@ -1040,6 +1166,7 @@ func runCase(id string, toks []string, bound time.Duration) (obs []string, flags
 	flags["connected"], flags["blockedwrite"], flags["poisoned"], flags["returned"] = r.connected.Load(), everAbort, r.poisoned, returned
 
 	// ---- cleanup: release everything that is still parked
+	r.hammerStop.Store(true)
 	close(r.stop)
 	r.cancel()
 	ice.VerifForget(r.A)
@@ -1077,6 +1204,18 @@ func (g *genr) pick(n int) int { return g.r.Intn(n) }
 // gen produces one script.  The session prefix is a canonical ICE session (with random extras);
 // the closers are inserted at a uniformly chosen position of it.
 func (g *genr) gen(tier string) (toks []string, tag string) {
+	if g.pick(16) == 0 {
+		// a candidate is published (addCandidate queued behind a running task) after the closer took its
+		// snapshot of the started candidates; a tick queued behind it then writes on its socket
+		toks = []string{"cl1", "1", "1", "0", "0", "0", "0", "0", "0", "0", "0"}
+		for _, s := range [][]string{{"AL"}, {"XR"}, {"PS"}, {"CN"}, {"SL", "3"}, {"TX"}, {"T0"}, {"QL", itoa(g.pick(3))}, {"QT"},
+			{"CA", "1", itoa(g.pick(2))}, {"G0"}, {"CW"}} {
+			toks = append(toks, ";")
+			toks = append(toks, s...)
+		}
+
+		return toks, "lateregister"
+	}
 	ctl := g.pick(2)
 	ncand := 1 + g.pick(3)
 	fast := 0
